@@ -5,10 +5,14 @@ import (
 	"encoding/hex"
 	"fmt"
 	"os"
+	"os/exec"
 	"path/filepath"
 	"sort"
 	"strconv"
+	"strings"
 	"time"
+
+	"github.com/XiXi-2024/xixi-kv/verifhook"
 )
 
 // directory-lock scenarios across processes (C16).
@@ -39,6 +43,42 @@ func lockMain(a []string) {
 		fmt.Printf("ok %d %d %d %d %s\n", t0, t1, t2, t3, c)
 	case "hash":
 		fmt.Println(hashTree(filepath.Join(a[1], a[2])))
+	case "try":
+		// one Open attempt by THIS process; closes again at once when it succeeded
+		s := newSession(a[1])
+		r := s.exec("open " + a[2] + " 65536 0 0 3 0 16")
+		if r == "ok" {
+			s.exec("close")
+		}
+		fmt.Println(r)
+	case "duringclose":
+		// xkv lock duringclose <base> <dir> <io>: at every file-level I/O event issued by Close (sync, close,
+		// truncate of the data files) another PROCESS tries to open the directory; it must be refused until
+		// Close has returned, and succeed afterwards.
+		base, dir := a[1], a[2]
+		s := newSession(base)
+		if r := s.exec("open " + dir + " 4096 0 0 3 " + a[3] + " 16"); r != "ok" {
+			fmt.Println("setup-open:", r)
+			return
+		}
+		for i := 0; i < 12; i++ {
+			s.exec(fmt.Sprintf("put 6b%02x p%d:900", i, i))
+		}
+		exe, _ := os.Executable()
+		var during []string
+		closing := true
+		verifhook.IOFn = func(kind, name string, n int64) {
+			if !closing || len(during) >= 6 {
+				return
+			}
+			out, _ := exec.Command(exe, "lock", "try", base, dir).Output()
+			during = append(during, kind+":"+strings.TrimSpace(string(out)))
+		}
+		c := s.exec("close")
+		closing = false
+		verifhook.IOFn = nil
+		out, _ := exec.Command(exe, "lock", "try", base, dir).Output()
+		fmt.Printf("close=%s during=%s after=%s\n", c, strings.Join(during, ","), strings.TrimSpace(string(out)))
 	}
 }
 
